@@ -1241,6 +1241,18 @@ func (m *Manager) Unlock(ns walletdb.ReadBucket, passphrase []byte) error {
 	m.cryptoKeyPriv.CopyBytes(decryptedKey)
 	zero.Bytes(decryptedKey)
 
+	// Use the master private key to decrypt the crypto script key as well.
+	// Without this the script key stays all-zero, and secret scripts would
+	// be sealed under a key that is known to everybody.
+	decryptedKey, err = m.masterKeyPriv.Decrypt(m.cryptoKeyScriptEncrypted)
+	if err != nil {
+		m.lock()
+		str := "failed to decrypt crypto script key"
+		return managerError(ErrCrypto, str, err)
+	}
+	m.cryptoKeyScript.CopyBytes(decryptedKey)
+	zero.Bytes(decryptedKey)
+
 	// Use the crypto private key to decrypt all of the account private
 	// extended keys.
 	for _, manager := range m.scopedManagers {
@@ -1420,8 +1432,25 @@ func (m *Manager) Decrypt(keyType CryptoKeyType, in []byte) ([]byte, error) {
 	}
 
 	decrypted, err := cryptoKey.Decrypt(in)
+	if err != nil && keyType == CKTScript {
+		decrypted, err = decryptLegacyScript(in, err)
+	}
 	if err != nil {
 		return nil, managerError(ErrCrypto, "failed to decrypt", err)
+	}
+	return decrypted, nil
+}
+
+// decryptLegacyScript opens data that was sealed with the script crypto key by
+// a version that never restored that key on Unlock and therefore used the
+// all-zero key. It is only a read-side fallback so that existing databases
+// keep working; nothing is ever sealed with the zero key anymore. The original
+// error is returned if the data does not open under the zero key either.
+func decryptLegacyScript(in []byte, origErr error) ([]byte, error) {
+	var legacyKey snacl.CryptoKey
+	decrypted, err := legacyKey.Decrypt(in)
+	if err != nil {
+		return nil, origErr
 	}
 	return decrypted, nil
 }
